@@ -10,7 +10,7 @@
    The bucket filter and the table filter in [c] are arbitrary functions. *)
 From Coq Require Import List Arith NArith Permutation Sorted.
 From Discv5V Require Import Generated.Params Lib.ListX Model.KBucket
-  Proofs.KBucketInv Proofs.KBucketTable Proofs.KBucketPending.
+  Proofs.KBucketInv Proofs.KBucketTable Proofs.KBucketPending Proofs.KBucketGap.
 Import ListNotations.
 
 Theorem C07_invariant_initial : forall c loc, TInv c (new_table loc).
@@ -107,6 +107,67 @@ Theorem C07_pending_created_only_by_pending_answer : forall c b n0 now,
   pend (fst (b_insert c b n0 now)) = pend b \/ pend (fst (b_insert c b n0 now)) = None.
 Proof. exact insert_pending_slot. Qed.
 Print Assumptions C07_pending_created_only_by_pending_answer.
+
+(* the numbers of the property text: 16 nodes per bucket, 256 buckets (regenerated from /repo) *)
+Theorem C07_constants : K = 16 /\ NB = 256.
+Proof. exact (conj K_is_16 NB_is_256). Qed.
+Print Assumptions C07_constants.
+
+(* "... only by evicting the LEAST-RECENTLY-ACTIVE disconnected node": in a table satisfying the
+   invariant with stamps, the node evicted by a pending node is the head of the bucket, it is
+   disconnected, and no disconnected node of the bucket has an earlier last status report. *)
+Theorem C07_evicted_is_least_recently_active :
+  forall c t0 t i now ins e,
+  TInvAt c t0 t -> snd (b_apply_pending c (get_bucket t i) now) = Some (ins, Some e) ->
+  exists h rest, nodes (get_bucket t i) = h :: rest /\ nkey h = e /\ nconn h = false /\
+    is_full (get_bucket t i) = true /\
+    forall n, In n (nodes (get_bucket t i)) -> nconn n = false -> (nstamp h <= nstamp n)%N.
+Proof.
+  intros c t0 t i now ins e HT. apply (evicted_is_least_recently_active c t0 (local t) i). apply HT.
+Qed.
+Print Assumptions C07_evicted_is_least_recently_active.
+
+(* the hypotheses hold on a non-trivial instance: sixteen disconnected nodes 32..47 fill bucket 5
+   of the table of node 0 (inserted at times 1..16), node 48 connects at time 20 and becomes the
+   pending node; at time 100 (timeout 60) it evicts node 32, the first one inserted *)
+Example C07_eviction_example :
+  let c := {| max_incoming := 16; pending_timeout := 60%N; bfilter := None; tfilter := None |} in
+  let ops := map (fun k => (OInsertOrUpdate (N.of_nat (31 + k)) {| vid := N.of_nat k; vsub := None |} false false, N.of_nat k))
+                 (seq 1 16)
+             ++ [(OInsertOrUpdate 48%N {| vid := 99%N; vsub := None |} true false, 20%N)] in
+  let t := fst (run true c (new_table 0%N) ops) in
+  TInvAt c 20%N t /\
+  snd (b_apply_pending c (get_bucket t 5) 100%N) = Some (48%N, Some 32%N).
+Proof.
+  intros c ops t. split; [|vm_compute; reflexivity].
+  assert (Hm : times_mono 0%N ops) by (vm_compute; repeat split; discriminate).
+  pose proof (reachable_inv_at true c 0%N ops 0%N Hm) as H.
+  assert (E : last_time 0%N ops = 20%N) by (vm_compute; reflexivity).
+  rewrite E in H. exact H.
+Qed.
+Print Assumptions C07_eviction_example.
+
+(* "a pending node enters a FULL bucket ONLY after its timeout and ONLY by evicting ...": the node
+   list of a bucket gains a key only in b_insert and b_apply_pending (b_remove ends with
+   b_apply_pending, C07_apply_pending_spec); b_insert leaves the nodes of a full bucket untouched,
+   and the status / value / pending updates never add a key to the nodes. *)
+Theorem C07_insert_never_changes_a_full_bucket :
+  forall c b n now, is_full b = true -> nodes (fst (b_insert c b n now)) = nodes b.
+Proof. exact b_insert_full_nodes_unchanged. Qed.
+Print Assumptions C07_insert_never_changes_a_full_bucket.
+
+Theorem C07_updates_never_add_a_node :
+  (forall c b n now k, In k (map nkey (nodes (fst (b_insert c b n now)))) ->
+     In k (map nkey (nodes b)) \/ (k = nkey n /\ is_full b = false)) /\
+  (forall c b k0 conn dir now k, In k (map nkey (nodes (fst (b_update_status c b k0 conn dir now)))) ->
+     In k (map nkey (nodes b))) /\
+  (forall c b k0 v k, In k (map nkey (nodes (fst (b_update_value c b k0 v)))) -> In k (map nkey (nodes b))) /\
+  (forall b conn inc, nodes (b_update_pending b conn inc) = nodes b).
+Proof.
+  split; [exact b_insert_node_keys|]. split; [exact b_update_status_node_keys|].
+  split; [exact b_update_value_node_keys|exact b_update_pending_nodes].
+Qed.
+Print Assumptions C07_updates_never_add_a_node.
 
 (* no index panic: every index the model hands to insert_at / remove_at / nth_error / the bucket
    array is in range under the invariant *)
